@@ -815,12 +815,74 @@ class ViewMixin:
                         raise Unsupported(f"{self.loc(n)} break/continue escaping a delegated generator")
         return out
 
+    # ---- round 8: `yield from (E for a in X for b in Y if c)` == `for a in X: for b in Y: if c: yield E` (same order, same laziness as far
+    # as a consumer of the iterator can tell).  The synthetic loops take the contract's loop specifications by position (loops of the
+    # function that start before the delegation + nesting depth).  Only at the top level of the iterator, only when no real loop follows
+    # (their positions would shift), only plain-name targets that occur nowhere else in the function (the comprehension scope is merged
+    # into the frame); anything else stays out of the subset (`unknown`). ----
+    _synth = None
+
+    def _genexp_loops(self, n):
+        g = n.value
+        top = self.cur_fn_stack[-1] if self.cur_fn_stack else None
+        if not isinstance(g, ast.GeneratorExp) or top is None or self.inline_depth != 0 or self._deleg or len(self.cur_fn_stack) != 1:
+            return None
+        here = (n.lineno, n.col_offset)
+        real = [x for x in ast.walk(top) if isinstance(x, (ast.For, ast.While))]
+        if any((x.lineno, x.col_offset) > here for x in real):
+            return None
+        inside = {id(x) for x in ast.walk(g)}
+        names = set()
+        for c in g.generators:
+            if c.is_async or not isinstance(c.target, ast.Name):
+                return None
+            names.add(c.target.id)
+        if len(names) != len(g.generators):
+            return None
+        for x in ast.walk(top):
+            if id(x) not in inside and ((isinstance(x, ast.Name) and x.id in names) or (isinstance(x, ast.arg) and x.arg in names)):
+                return None
+        if any(isinstance(x, (ast.Yield, ast.YieldFrom, ast.NamedExpr, ast.Lambda, ast.GeneratorExp, ast.ListComp, ast.SetComp, ast.DictComp))
+               for x in ast.walk(g) if x is not g):
+            return None
+        body = [ast.copy_location(ast.Expr(value=ast.copy_location(ast.Yield(value=g.elt), g.elt)), g.elt)]
+        loops = []
+        for c in reversed(g.generators):
+            for cond in reversed(c.ifs):
+                body = [ast.copy_location(ast.If(test=cond, body=body, orelse=[]), cond)]
+            f = ast.copy_location(ast.For(target=c.target, iter=c.iter, body=body, orelse=[], type_comment=None), c.target)
+            loops.insert(0, f)
+            body = [f]
+        before = sum(1 for x in real if (x.lineno, x.col_offset) < here)
+        if self._synth is None:
+            self._synth = {}
+        for k, f in enumerate(loops):
+            self._synth[id(f)] = (f, before + k)
+        return loops[0]
+
+    def loop_spec(self, node):
+        hit = (self._synth or {}).get(id(node))
+        if hit is not None and hit[0] is node:
+            return self.contract.loops.get(hit[1]) if self.contract is not None else None
+        return super().loop_spec(node)
+
     def e_YieldFrom(self, n, st):
         mode = self.view_mode()
         if mode in ("images", "tables"):
             fnode = self._delegate_fn(n)
             if fnode is not None:
                 return self._delegate(n, st, fnode)
+            loop = self._genexp_loops(n)
+            if loop is not None:
+                out = []
+                for o in self.exec_block([loop], st):
+                    if o.kind == "fall":
+                        out.append((o.st, NONE))
+                    elif o.kind == "raise":
+                        self.raise_in(o.st, o.val)
+                    else:
+                        raise Unsupported(f"{self.loc(n)} {o.kind} escaping a generator expression")
+                return out
             out = []
             for (s, v) in self.ev(n.value, st):
                 if self.is_zlist(s, v) and isinstance(s.obj(v.ref).cls, tuple) and s.obj(v.ref).cls[0] == "obj":
